@@ -1,10 +1,13 @@
 """Process wrappers: the Rust harness (real contracts) and the Lean driver (model)."""
-import os, subprocess
+import os, select, subprocess
 
 VERIF = os.path.dirname(os.path.dirname(os.path.dirname(os.path.abspath(__file__))))
 HARNESS_DIR = os.environ.get("LP_HARNESS_DIR", os.path.join(VERIF, "harness"))
 HARNESS_BIN = os.environ.get("LP_HARNESS_BIN", os.path.join(HARNESS_DIR, "target", "debug", "lp-harness"))
 DRIVER_BIN = os.path.join(VERIF, "lean", ".lake", "build", "bin", "lp-driver")
+
+
+OP_TIMEOUT = int(os.environ.get("LP_OP_TIMEOUT", "90"))
 
 
 class LineProc:
@@ -17,6 +20,12 @@ class LineProc:
     def ask(self, line):
         self.p.stdin.write(line + "\n")
         self.p.stdin.flush()
+        # an operation that does not answer within OP_TIMEOUT seconds (a loop that never ends in a changed
+        # contract) is cut: the process is killed and the trace ends with an error instead of hanging the check
+        ready, _, _ = select.select([self.p.stdout], [], [], OP_TIMEOUT)
+        if not ready:
+            self.p.kill()
+            raise RuntimeError("no answer within %d s (non-terminating operation?) on: %s" % (OP_TIMEOUT, line[:200]))
         out = self.p.stdout.readline()
         if out == "":
             raise RuntimeError("process died on: " + line)
